@@ -1049,7 +1049,23 @@ def truc_rule_table(ctx, crate):
                         tested = True
             if not tested:
                 ctx.add(['C18'], 'H-TABLE', x.key, 'the type table is written by an unconditional `BTreeMap::insert` at %s: registering a name that is already there overwrites the entry (even if the call then panics), so the table no longer answers what was registered first' % fmt_span(tm['span']), key='overwrite|%s' % x.path)
-    ctx.inst('H-TABLE', 'the table is only written through vacant entries / tested inserts (%d plain inserts)' % n_ins)
+    # … and nothing else takes the map mutably (`extend` / `append` overwrite whole ranges of entries, `retain` /
+    # `remove` / `clear` / `get_mut` forget or alter what was registered)
+    n_mut = 0
+    for x in crate.bodies:
+        if not (x.module or '').startswith('truc::record::type_resolver') or '::tests::' in x.path:
+            continue
+        xd = local_defs(x)
+        for bb, tm in x.calls():
+            if not tm['args']:
+                continue
+            rf = trace_value(x, xd, tm['args'][0])[-1]
+            if rf[0] == 'ref' and 'mut' in str(rf[1]).lower() and any(isinstance(e, dict) and e.get('name') == 'types' for e in rf[2]['p']):
+                n_mut += 1
+                last = (callee_path(tm) or '').split('::')[-1]
+                if last not in ('entry', 'insert'):
+                    ctx.add(['C18'], 'H-TABLE', x.key, 'the type table is modified through `%s` at %s: entries that were registered can be overwritten, altered or forgotten without the registration being refused' % (last, fmt_span(tm['span'])), key='table-mutation|%s|%s' % (x.path, last))
+    ctx.inst('H-TABLE', 'the table is only written through vacant entries / tested inserts (%d plain inserts, %d mutable uses of the map)' % (n_ins, n_mut))
     # the JSON forms are siblings: every writer serialises the same thing, the map of entries (what the
     # reader, `From<BTreeMap<String, DynamicTypeInfo>>`, takes)
     writers = [x for x in crate.bodies if re.match(r'^%sStaticTypeResolver::to_json_[a-z_]+$' % re.escape(R), x.path)]
